@@ -23,6 +23,7 @@ pub fn run_c13(ctx: &mut Ctx) {
          plus a real-thread stress (acquirer/dropper threads, live counter asserted <= max after every acquisition) as failing-input search. Non-trivial: history contains a contended acquisition; distinct by history");
     let mut rng = ctx.rng.fork();
     for ci in 0..ctx.n(2000, 40_000) {
+        if or.saturated() { or.count("stopped_early_saturated"); break; }
         let max = 1 + rng.usize_below(4);
         let clones = rng.usize_below(3);
         log.case(&format!("c13-{ci}"));
@@ -106,6 +107,7 @@ pub fn block_on<F: Future>(f: F) -> F::Output {
 pub fn c14_wg(ctx: &mut Ctx, log: &mut Log, im: &mut Impl, or: &mut Oracle) {
     let mut rng = ctx.rng.fork();
     for ci in 0..ctx.n(600, 12_000) {
+        if or.saturated() { or.count("stopped_early_saturated"); break; }
         let n = rng.usize_below(4);
         log.case(&format!("c14-wg-{ci}"));
         ex(log, im, &format!("g.new {n}"));
